@@ -20,7 +20,8 @@ RULE = ("case = (modulo, initdef, event sequence [, stored persistent value]); e
 ASSUMPTIONS = [
     "reference accumulator: v' = op(v, amount) reduced with Python's % after every step when "
     "modulo M > 0; initdef, restored and reset values reduced as well",
-    "floats compared with 1e-9 relative tolerance, ints exactly",
+    "floats compared with 1e-9 relative tolerance (also at the upper end of the range: a float "
+    "result equal to M itself is Python's rounding of a tiny negative operand), ints exactly",
     "events delivered with ExtEvent.send() into a running simulation on the virtual loop",
 ]
 REQUIRED = {'events_compared': 1000, 'put_without_value_checked': 5, 'modulo_zero_refused': 1,
@@ -89,7 +90,7 @@ def enum_cases(ctx):
 
 def random_cases(ctx):
     rng = ctx.rng('rnd')
-    n = 300 if ctx.tier == 'quick' else 100000
+    n = 300 if ctx.tier == 'quick' else 40000
     for _ in range(n):
         mod = rng.choice(MODULOS + (3, 1000003, 0.1))
         floats = rng.random() < 0.3 or isinstance(mod, float)
@@ -235,7 +236,14 @@ def check_one(case, blk, sim, ctx):
                 f"{blk.output!r}, reference {v!r}; sequence {case['seq'][:k + 1]}")
         if mod is not None and mod > 0:
             ctx.count('range_checks')
-            if not 0 <= blk.output < mod or not 0 <= ret < mod:
+            def in_range(x):
+                # float arithmetic: Python's % may return exactly M for a tiny negative
+                # operand (-1e-15 % M == M); that is a rounding artefact of [0, M), not an
+                # escape from the range - judged with the same 1e-9 tolerance as the values
+                if 0 <= x < mod:
+                    return True
+                return isinstance(x, float) and abs(x - mod) <= 1e-9 * mod
+            if not in_range(blk.output) or not in_range(ret):
                 raise core.Violation(
                     'out-of-range', f"output {blk.output!r} outside [0, {mod})")
 
